@@ -193,13 +193,16 @@ func (f *fNatsTransport) Request(ctx FContext, data []byte) (thrift.TTransport, 
 		return nil, err
 	}
 
+	verifHook("req.wait", f.registry, opId, 0)
 	select {
 	case result := <-resultC:
+		verifHook("req.result", f.registry, opId, 0)
 		if bytes.Equal(result, serviceNotAvailable) {
 			return nil, thrift.NewTTransportException(TRANSPORT_EXCEPTION_SERVICE_NOT_AVAILABLE, "frugal: service not available")
 		}
 		return &thrift.TMemoryBuffer{Buffer: bytes.NewBuffer(result)}, nil
 	case <-time.After(ctx.Timeout()):
+		verifHook("req.timeout", f.registry, opId, 0)
 		return nil, thrift.NewTTransportException(TRANSPORT_EXCEPTION_TIMED_OUT, "frugal: nats request timed out")
 	}
 }
